@@ -173,6 +173,7 @@ class Check:
         os.makedirs(os.path.join(ROOT, 'replays'), exist_ok=True)
         self.known = json.load(open(os.path.join(ROOT, 'known_findings.json')))
         self._printed_known = set()
+        self._shards = []
 
     @property
     def thorough(self):
@@ -278,14 +279,14 @@ class Check:
         tot = 0.0
         for k, idx, msg, dt in results:
             tot += dt
-            nm = 'correspondence %s shard %d (%d cases): agree = true for all' % (name, k // shard,
-                                                                                min(shard, len(cases) - k))
+            nm = ('correspondence %s shard %d (%d cases): agree = true for every case outside the listed known '
+                  'findings' % (name, k // shard, min(shard, len(cases) - k)))
             if idx is None:
                 self.oblige(nm, False, msg)
                 p = self.write_replay({'kind': 'correspondence-file-rejected', 'shard': name, 'coq_output': msg})
                 self.violations.append((p, True))
             else:
-                self.oblige(nm, not idx)
+                self._shards.append([name, k, set(k + i for i in idx), nm])
                 bad.extend(k + i for i in idx)
         self.extra.setdefault('coq_corr_s', 0)
         self.extra['coq_corr_s'] = round(self.extra['coq_corr_s'] + tot, 1)
@@ -328,11 +329,16 @@ class Check:
                 return k
         return None
 
-    def violation(self, replay, no_input=False, known_id=None):
-        """report a failure of the property. If it belongs to a listed known finding, print that instead."""
+    def violation(self, replay, no_input=False, known_id=None, corr=None):
+        """report a failure of the property. If it belongs to a listed known finding, print that instead.
+        corr=(shard_name, index): the correspondence case this report explains."""
         if known_id is not None:
             k = self.known_match(known_id)
             if k is not None:
+                if corr is not None:
+                    for sh in self._shards:
+                        if sh[0] == corr[0]:
+                            sh[2].discard(corr[1])
                 self.known_hits.append(known_id)
                 if known_id not in self._printed_known:
                     self._printed_known.add(known_id)
@@ -346,6 +352,8 @@ class Check:
 
     def finish(self, level='proof'):
         wall = time.time() - self.t0
+        for name, k, left, nm in self._shards:
+            self.oblige(nm, not left, 'unexplained disagreeing cases: %s' % sorted(left)[:20])
         nobl = len(self.obligations)
         ndis = sum(1 for o in self.obligations if o[1])
         for name, ok, detail in self.obligations:
